@@ -1014,7 +1014,7 @@ func runC16(c *ctx) {
 	for i := range cases {
 		seeds[i] = c.rng.U64()
 	}
-	sem := make(chan struct{}, 8)
+	sem := make(chan struct{}, vlib.Conc(8))
 	var wg sync.WaitGroup
 	for i := range cases {
 		wg.Add(1)
